@@ -761,7 +761,8 @@ theorem floorCtx_eq (dst frm : DurTy) (h : CastTyOk dst frm) (hp : PairTyOk frm 
 
 theorem floorCore_spec (dst frm : DurTy) (h : CastTyOk dst frm) (hp : PairTyOk frm dst) (c : Int) (hin : CastIn dst frm c)
     (hcmp : PairIn frm dst c (Spec.cast frm.per.toRat dst.per.toRat c))
-    (hstep : dst.rep.inR (Spec.cast frm.per.toRat dst.per.toRat c + -1) = true) :
+    (hstep : Spec.val frm.per.toRat c / dst.per.toRat < ((Spec.cast frm.per.toRat dst.per.toRat c : Int) : ℚ) →
+      dst.rep.inR (Spec.cast frm.per.toRat dst.per.toRat c + -1) = true) :
     floorCore ⟨dst, castK dst frm, pairK frm dst⟩ c = .ok (Spec.floor frm.per.toRat dst.per.toRat c) := by
   have hQ := toRat_pos dst.per h.2.2.2.1
   have hcast := castCore_spec dst frm h c hin
@@ -775,7 +776,7 @@ theorem floorCore_spec (dst frm : DurTy) (h : CastTyOk dst frm) (hp : PairTyOk f
   · have hx' : Spec.val frm.per.toRat c / dst.per.toRat < ((Spec.trunc (Spec.val frm.per.toRat c / dst.per.toRat) : Int) : ℚ) := hx
     rw [if_pos hx']
     simp only [hx, decide_true, if_true]
-    rw [step1_eq dst h.1 _ _ hstep]
+    rw [step1_eq dst h.1 _ _ (hstep hx)]
     rfl
   · have hx' : ¬ Spec.val frm.per.toRat c / dst.per.toRat < ((Spec.trunc (Spec.val frm.per.toRat c / dst.per.toRat) : Int) : ℚ) := hx
     rw [if_neg hx']
